@@ -538,6 +538,10 @@ def _uses_before_effects(blk, S, uses):
     if not remaining:
       return
     if isinstance(st, (ast.For, ast.While, ast.AsyncFor)):
+      if isinstance(st, ast.For):
+        expr(st.iter)       # evaluated once, before the loop is entered
+        if not remaining:
+          return
       if any(id(x) in remaining for x in ast.walk(st)):
         # a use inside a loop: fine only when the loop has no effects at all
         if any(isinstance(x, (ast.Call, ast.Yield, ast.Await)) or (isinstance(x, ast.Attribute) and isinstance(x.ctx, ast.Store)) for x in ast.walk(st)):
@@ -877,6 +881,77 @@ def split_withs(tree, stats):
 
 def _is_assign_to(st, name):
   return isinstance(st, ast.Assign) and len(st.targets) == 1 and isinstance(st.targets[0], ast.Name) and st.targets[0].id == name
+
+
+def split_chained_assigns(fnode, base_names, stats):
+  """`A = x = E` (or `x = A = E`) with x a local the reference does not know and A a plain name / attribute chain:
+  `A = E; x = A` -- the same stores, the local then is an alias that the temporary inlining can remove."""
+  for b in _blocks(fnode):
+    i = 0
+    while i < len(b):
+      st = b[i]
+      if isinstance(st, ast.Assign) and len(st.targets) == 2:
+        names = [t for t in st.targets if isinstance(t, ast.Name) and t.id not in base_names]
+        others = [t for t in st.targets if not (isinstance(t, ast.Name) and t.id not in base_names)]
+        if len(names) == 1 and len(others) == 1 and _is_pure_chain(others[0]):
+          a, x = others[0], names[0]
+          load = copy.deepcopy(a)
+          for n in ast.walk(load):
+            if hasattr(n, 'ctx'):
+              n.ctx = ast.Load()
+          s1 = ast.copy_location(ast.Assign(targets=[a], value=st.value), st)
+          s2 = ast.copy_location(ast.Assign(targets=[x], value=load), st)
+          b[i:i + 1] = [s1, s2]
+          stats['chained'] = stats.get('chained', 0) + 1
+          i += 2
+          continue
+      i += 1
+  ast.fix_missing_locations(fnode)
+
+
+def _is_pure_chain(n):
+  while isinstance(n, ast.Attribute):
+    n = n.value
+  return isinstance(n, ast.Name)
+
+
+def merge_name_aliases(fnode, base_names, stats):
+  """`x = y` between two locals where y is a name the reference does not know, bound only before this statement, and x is bound only here:
+  from then on both names denote the same object for good, so y is renamed to x everywhere and the statement dropped."""
+  params = set(params_of(fnode))
+  for b in _blocks(fnode):
+    for st in list(b):
+      if not (isinstance(st, ast.Assign) and len(st.targets) == 1 and isinstance(st.targets[0], ast.Name) and isinstance(st.value, ast.Name)):
+        continue
+      x, y = st.targets[0].id, st.value.id
+      if x == y or y in base_names or y in params or x in params or x not in base_names:
+        continue
+      if b is not fnode.body:
+        continue       # only straight-line code of the function body: every later use is dominated by the alias
+      xs = [n for n in ast.walk(fnode) if isinstance(n, ast.Name) and n.id == x]
+      ys = [n for n in ast.walk(fnode) if isinstance(n, ast.Name) and n.id == y]
+      if sum(1 for n in xs if isinstance(n.ctx, (ast.Store, ast.Del))) != 1:
+        continue
+      order = {}
+
+      def dfs(n):
+        order[id(n)] = len(order)
+        for ch in ast.iter_child_nodes(n):
+          dfs(ch)
+      dfs(fnode)
+      here = order[id(st)]
+      if any(order[id(n)] < here for n in xs):
+        continue       # x read before it is bound here?  (a closure defined earlier) -- leave alone
+      ystores = [n for n in ys if isinstance(n.ctx, (ast.Store, ast.Del))]
+      if not ystores or any(order[id(n)] > here for n in ystores):
+        continue
+      if any(isinstance(n, (ast.Global, ast.Nonlocal)) and (x in n.names or y in n.names) for n in ast.walk(fnode)):
+        continue
+      for n in ys:
+        n.id = x
+      b.remove(st)
+      stats['aliases_merged'] = stats.get('aliases_merged', 0) + 1
+      return merge_name_aliases(fnode, base_names, stats)
 
 
 def drop_self_assignments(fnode, stats):
@@ -1431,6 +1506,11 @@ def flatten_genexp_loops(fnode, stats):
 PACKAGE_SIGNATURES = {}    # callable name -> list of positional parameter name lists (set by restore.restore_package)
 
 
+# documented first parameters of the gevent calls the package uses (Event.wait / AsyncResult.wait / Greenlet.join(timeout=None), gevent.sleep(seconds=0));
+# consulted only for a name the package itself does not define
+EXTERNAL_SIGNATURES = {'wait': [['timeout']], 'join': [['timeout']], 'sleep': [['seconds']]}
+
+
 def keywords_to_positional(fnode, bsrc, stats):
   """f(a, k=v) -> f(a, v): a keyword argument becomes positional again when the reference function calls the same callee without that keyword
   and every definition of that name in the package has the parameter at the same position (all positions before it are filled)."""
@@ -1448,7 +1528,7 @@ def keywords_to_positional(fnode, bsrc, stats):
     if not (isinstance(c, ast.Call) and c.keywords) or any(k.arg is None for k in c.keywords) or any(isinstance(a, ast.Starred) for a in c.args):
       continue
     nm = c.func.attr if isinstance(c.func, ast.Attribute) else c.func.id if isinstance(c.func, ast.Name) else None
-    sigs = PACKAGE_SIGNATURES.get(nm)
+    sigs = PACKAGE_SIGNATURES.get(nm) or EXTERNAL_SIGNATURES.get(nm)
     if not nm or not sigs or nm not in base_calls:
       continue
     changed = True
@@ -1497,20 +1577,39 @@ def tuple_assign_texts(fnode):
 
 
 def split_new_tuple_assigns(fnode, base_texts, stats):
-  """a, b = X, Y (not in the reference tree) -> a = X; b = Y, when that is the same thing: plain distinct names as targets,
-  none of which is read by any of the right-hand sides."""
+  """a, b = X, Y (not in the reference tree) -> a = X; b = Y, when that is the same thing: distinct plain names or attribute chains as targets,
+  and no right-hand side reads a target stored before it in the sequential form (an attribute target counts as read by any later
+  right-hand side that mentions it or makes a call)."""
   for b in _blocks(fnode):
     i = 0
     while i < len(b):
       st = b[i]
       if (isinstance(st, ast.Assign) and len(st.targets) == 1 and isinstance(st.targets[0], ast.Tuple) and isinstance(st.value, ast.Tuple)
           and len(st.targets[0].elts) == len(st.value.elts) and ast.unparse(st) not in base_texts
-          and all(isinstance(t, ast.Name) for t in st.targets[0].elts)):
-        names = [t.id for t in st.targets[0].elts]
-        reads = set(n.id for v in st.value.elts for n in ast.walk(v) if isinstance(n, ast.Name))
-        if len(set(names)) == len(names) and not (set(names) & reads):
-          new = [ast.Assign(targets=[ast.Name(id=nm, ctx=ast.Store())], value=v, lineno=st.lineno + k * 1e-5, col_offset=st.col_offset)
-                 for k, (nm, v) in enumerate(zip(names, st.value.elts))]
+          and all(isinstance(t, ast.Name) or (isinstance(t, ast.Attribute) and _is_pure_chain(t)) for t in st.targets[0].elts)):
+        tg = st.targets[0].elts
+        texts = [ast.unparse(t) for t in tg]
+        name_targets = set(t.id for t in tg if isinstance(t, ast.Name))
+        ok = len(set(texts)) == len(texts)
+        for t in tg:
+          if isinstance(t, ast.Attribute):
+            root = t
+            while isinstance(root, ast.Attribute):
+              root = root.value
+            if root.id in name_targets:
+              ok = False
+        for k, t in enumerate(tg):
+          for v in st.value.elts[k + 1:]:
+            if isinstance(t, ast.Name):
+              if any(isinstance(n, ast.Name) and n.id == t.id for n in ast.walk(v)):
+                ok = False
+            else:
+              if texts[k] in ast.unparse(v) or any(isinstance(n, (ast.Call, ast.Await, ast.Yield, ast.YieldFrom)) for n in ast.walk(v)):
+                ok = False
+        # every name target: not read by ANY right-hand side placed after its store (covered above); reads placed before are unaffected
+        if ok:
+          new = [ast.Assign(targets=[t], value=v, lineno=st.lineno + k * 1e-5, col_offset=st.col_offset)
+                 for k, (t, v) in enumerate(zip(tg, st.value.elts))]
           b[i:i + 1] = new
           stats['tuples_split'] = stats.get('tuples_split', 0) + 1
           i += len(new)
@@ -1599,6 +1698,8 @@ def rename_function(fnode, rel, qualname, base_funcs, stats):
     bsrc = base_source_fn(rel, qualname)
     try:
       drop_self_assignments(fnode, stats)
+      split_chained_assigns(fnode, base_names, stats)
+      merge_name_aliases(fnode, base_names, stats)
       restore_while_tests(fnode, set(base.get('whiles', [])), stats)
       merge_flag_or(fnode, base_names, stats)
       split_joined_flag(fnode, base_names, stats)
